@@ -10,7 +10,7 @@ cmake --build _build -j16 >/dev/null 2>&1 || { echo "BUILD FAILED with change"; 
 T=$(ctest --test-dir _build -j8 2>&1 | grep "tests passed")
 echo "suite WITH change: $T"
 case "$T" in "100% tests passed"*) ;; *) echo "suite fails with change"; exit 1;; esac
-B="g++ -std=c++17 -O1 -I$WT/include -I$WT/src -I$WT/test seed/demo.cpp $WT/_build/src/libUTAP.a -lxml2 -ldl -o seed/demo"
+B="g++ -std=c++17 -O1 -I$WT/include -I$WT/src -I$WT/test -I/usr/include/libxml2 seed/demo.cpp $WT/_build/src/libUTAP.a -lxml2 -ldl -o seed/demo"
 $B 2>/tmp/harvest_build.log || { echo "demo build failed"; head -20 /tmp/harvest_build.log; exit 1; }
 ( cd seed && timeout 120 ./demo >/tmp/harvest_with.log 2>&1 ); W=$?
 echo "demo WITH change: exit=$W"
